@@ -25,11 +25,19 @@ pub struct PtCase {
 }
 
 pub fn gen_pt_case(g: &mut Gen, tier: Tier, force_consist: Option<bool>) -> PtCase {
+    gen_pt_case_dt(g, tier, force_consist, 0.0)
+}
+
+/// `coarse_dt_p`: probability of ignoring the battery's SOC-window bound on the step size (steps
+/// up to 10 s whatever the capacity: a step may then carry the SOC past the end of its window,
+/// which the ledger clauses must survive; C09's window clause is only claimed under the bound)
+pub fn gen_pt_case_dt(g: &mut Gen, tier: Tier, force_consist: Option<bool>, coarse_dt_p: f64) -> PtCase {
     let consist = force_consist.unwrap_or_else(|| g.bool(0.45));
     let units = if consist { gen_units(g, 8) } else { vec![gen_unit(g, None)] };
     let pdct = g.int(0, 1) as u8;
     let max_steps = if tier == Tier::Thorough { 80 } else { 40 };
-    let steps = gen_steps(g, max_steps, dt_max(&units), !consist);
+    let dtm = if coarse_dt_p > 0.0 && g.bool(coarse_dt_p) { 10.0 } else { dt_max(&units) };
+    let steps = gen_steps(g, max_steps, dtm, !consist);
     PtCase { units, consist, pdct, steps, retry_on_same_object: false }
 }
 
@@ -821,10 +829,13 @@ fn pt_assumptions() -> Vec<String> {
 
 macro_rules! pt_prop {
     ($name:ident, $id:expr, $check:ident, $force:expr, $quick:expr, $rule:expr, $panic:expr, $retry:expr) => {
+        pt_prop!($name, $id, $check, $force, $quick, $rule, $panic, $retry, 0.0);
+    };
+    ($name:ident, $id:expr, $check:ident, $force:expr, $quick:expr, $rule:expr, $panic:expr, $retry:expr, $coarse:expr) => {
         pub struct $name;
         impl $name {
             fn gen(g: &mut Gen, tier: Tier) -> PtCase {
-                let mut c = gen_pt_case(g, tier, $force);
+                let mut c = gen_pt_case_dt(g, tier, $force, $coarse);
                 if $retry > 0.0 && !c.consist {
                     c.retry_on_same_object = g.bool($retry);
                 }
@@ -862,7 +873,7 @@ macro_rules! pt_prop {
 }
 
 pt_prop!(C01, "C01", check_c01, None, 20000,
-    "generated conventional / battery-electric unit (55%) or consist of 1-8 units under RESGreedy/Proportional (45%), generated maps/ratings/SOC, 1-40 (thorough 1-80) adversarial steps; after every accepted step all per-step power balances, all cumulative energy balances, every energy_* == own sum of pwr_* x dt, SOC == soc0 - chemical energy/capacity, consist totals == sums over units. Non-trivial: >=5 accepted steps incl. >=1 traction and >=1 braking step; distinct = distinct case JSON", false, 0.0);
+    "generated conventional / battery-electric unit (55%) or consist of 1-8 units under RESGreedy/Proportional (45%), generated maps/ratings/SOC, 1-40 (thorough 1-80) adversarial steps; after every accepted step all per-step power balances, all cumulative energy balances, every energy_* == own sum of pwr_* x dt, SOC == soc0 - chemical energy/capacity, consist totals == sums over units. Non-trivial: >=5 accepted steps incl. >=1 traction and >=1 braking step; distinct = distinct case JSON; 30 % of the histories ignore the battery's SOC-window bound on the step size (a step may carry the SOC past the end of its window)", false, 0.0, 0.3);
 pt_prop!(C08, "C08", check_c08, None, 20000,
     "same histories as C01 (stand-alone units get engine-off steps with 12% probability); per accepted step: every loss >= 0, every eta in (0,1], |out| <= |in| per converter and direction, cumulative fuel/loss/dyn-brake energies non-decreasing, dynamic braking only under braking demand, engine off => zero fuel, idle fuel and aux. Non-trivial: >=3 accepted steps incl. an engine-off step or a regenerating step", false, 0.0);
 pt_prop!(C09, "C09", check_c09, None, 20000,
